@@ -9,6 +9,7 @@
 -/
 import IocProofs.Lemmas.Placeholder
 import IocProofs.Lemmas.PlaceholderLayers
+import IocProofs.Lemmas.SemStages
 namespace Ioc.C16
 open Ioc Ioc.Placeholder
 
@@ -272,5 +273,135 @@ theorem C16_default_lone_quote_panics_counterexample :
 theorem C16_negative_index_panics_counterexample :
     process [(ofString "l", .list [.num (ofString "1")])] (ofString "${l.-1}") = .panic := by
   decide +kernel
+
+/-! ### the REGENERATED loop and quote stage
+
+    `el_ReplaceAllContent` is the syntax tree of elHelper.ReplaceAllContent as it is in /repo now, `quote_PostProcessProperties`
+    that of configQuoteAwarePostProcessors.PostProcessProperties INCLUDING the function literal it hands to the loop.
+    Under the interpretation Ioc.SemStages (the regexp search, strings.Replace, SplitN, Configure.Get, ParseAny, FormatAny are
+    parameters) they are `elLoop` and `stageLoop (quoteNode …)`; the byte-level model of this file (`loopF`, `repl`) is the
+    instance of the same loop and the same decision at the byte-level operations. -/
+section code
+open Ioc.Go Ioc.Sem
+
+/-- ReplaceAllContent for EVERY string-operation table, callback (which may change the world), bound and input: the same
+    rounds in the same order — search, stop when nothing matches, THEN the bound check, then the callback on the content,
+    the first callback error ends it, else replace the first occurrence of the matched text and go round again -/
+theorem C16_code_ReplaceAllContent {σ : Type} (ops : ElOps String) (cb : String → σ → Except String String × σ)
+    (bound fuel : Nat) (hE : ∀ s, ops.isEmpty s = (s == "")) (s : String) (w : σ) :
+    run (elPrims ops cb bound fuel) Progs.el_ReplaceAllContent [.str s, .ref 0 40] w =
+      (elLoop ops cb "unresolved" bound fuel 0 s w).map (fun r => (encElRes r.1, r.2)) :=
+  el_sem ops cb bound hE fuel s w
+
+/-- … and it ends, whatever the callback answers: `bound + 1` rounds of fuel always suffice -/
+theorem C16_code_loop_terminates {σ S ε : Type} (ops : ElOps S) (cb : S → σ → Except ε S × σ) (be : ε) (bound : Nat) (s : S) (w : σ) :
+    (elLoop ops cb be bound (bound + 1) 0 s w).isSome = true :=
+  elLoop_terminates bound ops cb be (bound + 1) 0 s w (by omega) (by omega)
+
+/-- a callback that fails is the end: nothing is searched or replaced after it, its error is the result -/
+theorem C16_code_loop_first_error {σ S ε : Type} (ops : ElOps S) (cb : S → σ → Except ε S × σ) (be : ε) (bound fuel round : Nat)
+    (s : S) (w w' : σ) (e : ε) (hm : ops.isEmpty (ops.find s) = false) (hb : round < bound)
+    (hc : cb (ops.content (ops.find s)) w = (.error e, w')) :
+    elLoop ops cb be bound (fuel + 1) round s w = some (.error e, w') := by
+  have : ¬ round ≥ bound := by omega
+  simp [elLoop, hm, this, hc]
+
+/-- the quote stage with its function literal -/
+theorem C16_code_quote_stage (props : List SProp) (ops : ElOps String) (splitN : String → String × Option String)
+    (cfg : String → Option QV) (lenOf : Nat → Nat) (parse : String → Except String Nat) (fmtAny : Nat → Except String String)
+    (bound fuel : Nat) (hE : ∀ s, ops.isEmpty s = (s == "")) (hfuel : bound + 1 ≤ fuel) (n : Nat) (w : SW) :
+    run (quotePrims props ops splitN cfg lenOf parse fmtAny bound fuel) Progs.quote_PostProcessProperties
+        [.list ((List.range' 0 n).map (fun i => Go.Val.ref i 20)), .str "c", .str "n"] w =
+      some (stageResult (stageLoop (quoteNode props ops splitN cfg lenOf parse fmtAny bound fuel) (List.range' 0 n) w).2,
+            (stageLoop (quoteNode props ops splitN cfg lenOf parse fmtAny bound fuel) (List.range' 0 n) w).1) :=
+  quote_sem props ops splitN cfg lenOf parse fmtAny bound fuel hE hfuel n w
+
+/-- the byte-level string operations of this file's model -/
+def bytesOps : ElOps Bytes where
+  find s := match findFirst s with
+    | none => []
+    | some (_, c, _) => matchText c
+  isEmpty s := s.isEmpty
+  content elr := (elr.drop 2).dropLast
+  replace1 s old new := replaceFirst old new s
+
+def stepToExcept : StepRes → Except Res Bytes
+  | .ok r => .ok r
+  | .err => .error .error
+  | .panic => .error .panic
+  | .unmodelled => .error .unmodelled
+
+def loopResult : Option (Except Res Bytes × Unit) → Res
+  | none => .outOfFuel
+  | some (.ok r, _) => .value r
+  | some (.error e, _) => e
+
+theorem bytesOps_content (c : Bytes) : bytesOps.content (matchText c) = c := by
+  simp [bytesOps, matchText]
+
+/-- the byte-level loop `loopF` (with the bound) IS `elLoop` at the byte-level operations -/
+theorem C16_loopF_is_elLoop (f : Bytes → StepRes) (b : Nat) : ∀ (fuel round : Nat) (s : Bytes),
+    loopF f (some b) fuel round s =
+      loopResult (elLoop bytesOps (fun c (_ : Unit) => (stepToExcept (f c), ())) Res.error b fuel round s ()) := by
+  intro fuel
+  induction fuel with
+  | zero => intro round s; rfl
+  | succ n ih =>
+    intro round s
+    simp only [loopF, elLoop]
+    cases hff : findFirst s with
+    | none => simp [bytesOps, hff, loopResult]
+    | some m =>
+      obtain ⟨pre, c, post⟩ := m
+      have hfind : bytesOps.find s = matchText c := by simp [bytesOps, hff]
+      have hne : bytesOps.isEmpty (matchText c) = false := by simp [bytesOps, matchText]
+      simp only [hfind, hne, Bool.false_eq_true, if_false, bytesOps_content, hitBound]
+      by_cases hb : round ≥ b
+      · simp [hb, loopResult]
+      · simp only [hb, decide_false, Bool.false_eq_true, if_false]
+        cases hf : f c with
+        | ok r =>
+          have e1 : stepToExcept (.ok r) = .ok r := rfl
+          simp only [e1]
+          exact ih (round + 1) (replaceFirst (matchText c) r s)
+        | err =>
+          have e1 : stepToExcept .err = .error Res.error := rfl
+          simp only [e1, loopResult]
+        | panic =>
+          have e1 : stepToExcept .panic = .error Res.panic := rfl
+          simp only [e1, loopResult]
+        | unmodelled =>
+          have e1 : stepToExcept .unmodelled = .error Res.unmodelled := rfl
+          simp only [e1, loopResult]
+
+/-- the byte-level callback `repl` takes the decision `quoteDecision` (the decision of the regenerated function literal,
+    `quoteCb`): a present value is formatted, an absent one (nil, empty map, empty list) falls to the default, an empty or
+    missing default gives the empty text, a default that does not parse is the error -/
+theorem C16_repl_is_quoteDecision (cfg : Cfg) (content : Bytes) (v : Option CVal)
+    (hget : get cfg (splitColon content).1 = .val v) :
+    repl cfg content =
+      match quoteDecision (ε := StepRes) (isAbsent v) (formatOpt v) (splitColon content).2 (fun d => d.isEmpty)
+              (fun d => match normDefault d with | .ok r => .ok r | e => .error e) with
+      | .error e => e
+      | .ok none => .ok []
+      | .ok (some t) => .ok t := by
+  unfold repl quoteDecision
+  rcases hs : splitColon content with ⟨key, dflt⟩
+  rw [hs] at hget
+  simp only [hget]
+  cases hab : isAbsent v with
+  | false => simp
+  | true =>
+    simp only [if_true]
+    cases dflt with
+    | none => simp [defaultAnswer]
+    | some d =>
+      cases hd : d.isEmpty with
+      | true => simp [defaultAnswer, hd]
+      | false =>
+        simp only [defaultAnswer, hd, Bool.false_eq_true, if_false]
+        cases normDefault d <;> simp [Except.map]
+
+end code
 
 end Ioc.C16
